@@ -26,7 +26,17 @@ pub fn handle(cmd: &str, _req: &Value) -> Result<Value, String> {
             let masks: serde_json::Map<String, Value> = regs.iter().map(|(n, r)| ((*n).to_string(), json!(mask_for(*r)))).collect();
             let widths: serde_json::Map<String, Value> = regs.iter().map(|(n, _)| ((*n).to_string(), json!(register_width(n)))).collect();
             let layout: Vec<Value> = SNAPSHOT_REGISTER_LAYOUT.iter().map(|(n, w)| json!([n, w])).collect();
+            // the keyboard register block as the memory image's predicates see it (behavioural copies of KOL/KOH/KIL)
+            let kbd_is: Vec<u32> = (0u32..256).filter(|o| M::MemoryImage::is_keyboard_offset(*o)).collect();
+            let plain = M::MemoryImage::new();
+            let mut bridged = M::MemoryImage::new();
+            bridged.set_keyboard_bridge(true);
+            let kbd_host: Vec<u32> = (0u32..256).filter(|o| plain.requires_python(M::INTERNAL_MEMORY_START + *o)).collect();
+            let kbd_bridge: Vec<u32> = (0u32..256)
+                .filter(|o| plain.requires_python(M::INTERNAL_MEMORY_START + *o) != bridged.requires_python(M::INTERNAL_MEMORY_START + *o))
+                .collect();
             Ok(json!({
+                "kbd_is_keyboard_offset": kbd_is, "kbd_requires_host": kbd_host, "kbd_bridge_switches": kbd_bridge,
                 "opcodes": ops, "mask_for": masks, "register_width": widths, "snapshot_layout": layout,
                 "consts": {
                     "INTERNAL_MEMORY_START": M::INTERNAL_MEMORY_START, "ADDRESS_MASK": M::ADDRESS_MASK, "INTERNAL_ADDR_MASK": M::INTERNAL_ADDR_MASK,
